@@ -2,7 +2,7 @@
 SPEC = {'level': 'exploration',
  'assumptions': ['RefLedger replay (own UTXO rules: missing-or-spent, duplicate input, BIP30 overwrite; no script evaluation) is the reference; every catalogue block is first judged by the model and dropped unless it violates exactly the intended rule',
                  'regtest chain, base of 104 empty blocks, histories <= 22 ops; BIP30 re-creation only through identical coinbases (BIP34 switched off with -testactivationheight)'],
- 'stages': [gen('vh_c02', 'c02_spend', 800, 12000, min_cases_quick=250,
+ 'stages': [gen('vh_c02', 'c02_spend', 800, 12000, min_cases_quick=80, max_seconds_quick=900, max_seconds_thorough=7200,
                 floors={'has-rejected-fault': 0.5, 'fault-after-flush-and-reorg': 0.08, 'flush': 0.3, 'reorg': 0.2, 'bip34-off': 0.3},
                 rule='double-spend catalogue histories; non-trivial = a double-spend shape delivered after >=1 flush and >=1 reorg')]}
 
